@@ -1,6 +1,8 @@
 """C09 - generated pybind11 code is well-formed C++ (Engine E)."""
 from .. import rules_pybind as RP
 from .. import rules_inst as RI
+from .. import rules_alias as RA
+from .c13 import P1_EXEMPT
 
 ID = "C09"
 EXPLANATION = (
@@ -12,7 +14,10 @@ EXPLANATION = (
     "spellings, default-value text (bracket-balanced because DEFAULT_ARG only admits nested brackets through "
     "nestedExpr, C12/L4) - the emitted text is balanced. W3: no namespace prefix is emitted directly in front "
     "of verbatim expression text (a namespaced variable's initialiser). W4 (lambda/keyword arity) = C04/B1 "
-    "and W5 (no unsubstituted template parameter) = C02/S1-S2, re-run here. 'Compiles against any conforming "
+    "and W5 (no unsubstituted template parameter, declarations not rewritten in place by an instantiation) = "
+    "C02/S1-S2/S7, re-run here. W6: every identifier the generated code introduces itself - the submodule "
+    "variables - is declared before use: the def_submodule statement is emitted on the first visit of every "
+    "namespace below the top namespace under no further condition, before that namespace's content. 'Compiles against any conforming "
     "library' needs a compiler and the library and is not decided.")
 ASSUMPTIONS = ["str.format semantics; slot values that are themselves generated text are balanced by induction over the templates"]
 
@@ -25,3 +30,5 @@ def run(ctx, rep):
     rep.run(RP.rule_one_argument_list, ctx, rep, "W4", min_emitters=4)
     rep.run(RI.rule_coverage, ctx, rep, "W5", min_sites=10)
     rep.run(RI.rule_depth, ctx, rep, "W5")
+    rep.run(RA.rule_mutate_only_fresh, ctx, rep, "W5", "gtwrap/template_instantiator", P1_EXEMPT, min_sites=20)
+    rep.run(RP.rule_submodule_once, ctx, rep, "W6")
